@@ -123,6 +123,9 @@ def case(draw):
         c["b"] = draw(G.supports(["D", "E"], allow_zero=False))
         c["shared"] = draw(st.sampled_from(["A", "B", "C"]))
         c["overlap_kind"] = draw(st.sampled_from(["supported", "zero_in_second", "zero_in_first", "zero_in_both"]))
+        # optionally a third, disjoint interval placed before / between / after the overlapping pair
+        c["third_at"] = draw(st.sampled_from([None, 0, 1, 2]))
+        c["c"] = draw(G.supports(["F", "G"], allow_zero=False))
     elif kind == "duplicate_candidates":
         cands, bl = draw(complete_profile())
         c.update(cands=cands, ballots=bl, dup=draw(st.integers(0, len(cands) - 1)),
@@ -417,8 +420,16 @@ def check(case):
         a2 = PreferenceInterval(a_sup)
         b2 = PreferenceInterval({**{c: G.fl(v) for c, v in case["b"].items()},
                                  sh: 0.0 if ok_kind in ("zero_in_second", "zero_in_both") else 0.5})
-        expect_raise(out, kind, lambda: combine_preference_intervals([a2, b2], [0.25, 0.75]), (ValueError,),
-                     f"candidate {sh} listed in both intervals ({ok_kind})")
+        ivs, props = [a2, b2], [0.25, 0.75]
+        if case.get("third_at") is not None:
+            c3 = PreferenceInterval({c: G.fl(v) for c, v in case["c"].items()})
+            ivs.insert(case["third_at"], c3)
+            props = [0.25, 0.5, 0.25]
+            v3, exc3, _ = E.call(combine_preference_intervals, [a, c3, b], props)
+            if exc3 is not None:
+                out.fail(kind, f"valid_rejected_{type(exc3).__name__}", f"three disjoint intervals: {exc3!r}")
+        expect_raise(out, kind, lambda: combine_preference_intervals(ivs, props), (ValueError,),
+                     f"candidate {sh} listed in two of {len(ivs)} intervals ({ok_kind}, third interval at {case.get('third_at')})")
         expect_raise(out, kind, lambda: combine_preference_intervals([a, b], [0.25, 0.75 + 1e-6]), (ValueError,),
                      "proportions summing to 1+1e-6")
         nt = True
